@@ -1228,9 +1228,11 @@ package kapacitor
 // ---------------------------------------------------------------- alert.go restore (C08)
 // "restart of tasks whose alert has both an anonymous and a named topic": which level an alert ID
 // resumes at, and how the two topics are reconciled.
+// Assumed: recorded states carry one of the four levels.
 //@ func =(github.com/influxdata/kapacitor/services/alert.Events).EventState
 //@   trusted
 //@   modifies nothing
+//@   ensures 0 <= result0.Level && result0.Level <= 3
 //@ func =(github.com/influxdata/kapacitor/services/alert.Events).UpdateEvent
 //@   trusted
 //@   modifies nothing
@@ -1251,9 +1253,29 @@ package kapacitor
 //@ func (*AlertNode).restoreEvent
 //@   props C08
 //@   requires n != nil && n.diag != nil && n.et != nil && n.et.tm != nil && n.et.tm.AlertService != nil
+//@   modifies nothing
+//@   ensures [level-range] 0 <= result0 && result0 <= 3
 //@   ensures [anon-wins] anonFound ==> result0 == anonTopicState.Level && result1 == anonTopicState.Time
 //@   ensures [else-topic] !anonFound ==> result0 == topicState.Level && result1 == topicState.Time
 //@   ensures [nothing-found-is-ok] !anonFound && !topicFound ==> result0 == 0
 //@   ensures [no-update-when-agreeing] topicState.Level == anonTopicState.Level ==> !called(UpdateEvent)
 //@   guardcall UpdateEvent#1: anonFound && topicFound && topicState.Level != anonTopicState.Level && arg0 == n.topic && arg1 == anonTopicState
 //@   guardcall UpdateEvent#2: topicFound && !anonFound && len(n.handlers) > 0 && topicState.Level != 0 && arg0 == n.anonTopic && arg1 == topicState
+
+// restoreEventState: a new state machine for the ID; if the ID resumes at a non-OK level that
+// level becomes its current level (one history entry after a fresh, all-OK history) and the
+// recorded trigger time becomes both the last and -- the entry before being OK -- the first
+// trigger time, so durations continue from the recorded time. An ID that resumes at OK starts
+// from the fresh state.
+//@ func (*AlertNode).newAlertState
+//@   trusted
+//@   modifies nothing
+//@   ensures alertStateOK(result) && fresh(result) && result.n == n && result.idx == 0 && len(result.history) >= 2
+//@   ensures forall k int :: 0 <= k && k < len(result.history) ==> result.history[k] == 0
+//@ func (*AlertNode).restoreEventState
+//@   props C08
+//@   requires alertNodeOK(n) && n.a != nil && n.a.AlertNodeData != nil && n.et != nil && n.et.tm != nil && n.et.tm.AlertService != nil
+//@   ensures result != nil && fresh(result) && called(restoreEvent) && callarg(restoreEvent, 0) == id
+//@   ensures [resumes-at-recorded-level] callresult(restoreEvent, 0) != 0 ==> result.history[result.idx] == callresult(restoreEvent, 0)
+//@       && result.lastTriggered == callresult(restoreEvent, 1) && result.firstTriggered == callresult(restoreEvent, 1)
+//@   ensures [ok-starts-fresh] callresult(restoreEvent, 0) == 0 ==> result.history[result.idx] == 0 && result.idx == 0
